@@ -108,7 +108,7 @@ def worker(args):
         fn = prog.funcs[fname]
         contract = ex.contract_of(fn)
         sprops = db.safety_props(fn.pkg)
-        obls = ex.verify(fn, safety_props=sprops, want_safety=bool(sprops))
+        obls = ex.verify(fn, safety_props=sprops, want_safety=bool(sprops) and not (contract is not None and 'nosafety' in contract.flags))
         res['gen_s'] = time.time() - t0
         res['paths'] = ex.npaths
         mine = []
